@@ -834,6 +834,16 @@ def goroutines_serial(case):
             if "panic" in str(io.get("g2")) or "deadlock" in str(io.get("g2")) or io.get("g1panic"):
                 return [dict(step=idx, what="stale-validation-panics", detail=dict(cmd=strip(ln), obs=io))]
             continue
+        if ln.get("k") == "witness" and str(ln.get("point", "")).startswith("tx.failing-with-waiter"):
+            # the failing transaction leaves nothing; the caller that waited for the mutex is served as if alone
+            remote = ln["point"].endswith("remote")
+            want_value = 7 if remote else 1
+            want_seqs = [1] if remote else [1, 2]
+            if (io.get("outcomes") != ["g1:err", "g2:ok"] or io.get("readPanic") or io.get("value") != want_value
+                    or io.get("seqs") != want_seqs or io.get("valueAfterOneMore") != want_value + 1
+                    or io.get("queuedAfterOneMore") != len(want_seqs) + 1):
+                return [dict(step=idx, what="waiter-behind-failing-transaction-lost-or-broken", detail=dict(cmd=strip(ln), obs=io))]
+            continue
         if ln.get("k") == "witness":
             outs = [str(x) for x in io.get("outcomes", [])]
             bad = [x for x in outs if "panic" in x or "deadlock" in x]
@@ -842,6 +852,20 @@ def goroutines_serial(case):
         if ln.get("k") == "stress":
             if io.get("deadlock") or io.get("panics") or io.get("seqGap") or io.get("queued") != io.get("expectedQueued") or io.get("value") != io.get("expected"):
                 return [dict(step=idx, what="concurrent-use-not-serial", detail=dict(cmd=strip(ln), obs=io))]
+    return []
+
+
+def lock_excludes(case):
+    """C12/C13: the per-key lock of the server excludes its holders also on the first use of a name: no two holders at
+    once, no lost update of a counter protected only by the lock, nobody refused (own live contexts)."""
+    for idx, (ln, mo) in enumerate(case):
+        if ln.get("k") != "lockstress":
+            continue
+        io = ln.get("obs", {})
+        if io.get("panic") or io.get("hang"):
+            return [dict(step=idx, what="lock-stress-" + ("panic" if io.get("panic") else "hang"), detail=dict(cmd=strip(ln), obs=io))]
+        if io.get("overlaps") or io.get("lostUpdates") or io.get("refused"):
+            return [dict(step=idx, what="lock-does-not-exclude", detail=dict(cmd=strip(ln), obs=io))]
     return []
 
 
@@ -888,4 +912,4 @@ def hash_unique(case):
 
 ORACLES = dict(rt_converge=rt_converge, usable_after_refusal=usable_after_refusal, hash_unique=hash_unique, snapshot_replay=snapshot_replay, goroutines_serial=goroutines_serial, fault_recovers=fault_recovers, enc_roundtrip=enc_roundtrip, patch_target=patch_target, loginv=loginv, sconverge=sconverge, refused_noop=refused_noop,
                isolation=isolation, notify=notify, contract=contract, corr=corr, spec=spec, converge=converge, err_noop=err_noop, no_panic=no_panic,
-               seq_gapless=seq_gapless, list_order=list_order, twin=twin, tx_atomic=tx_atomic, plain_doc=plain_doc)
+               seq_gapless=seq_gapless, list_order=list_order, twin=twin, tx_atomic=tx_atomic, plain_doc=plain_doc, lock_excludes=lock_excludes)
